@@ -1,5 +1,6 @@
 import PybtexModel.Drv.Json
 import PybtexModel.Model.Names
+import PybtexModel.Model.BibWrite
 import PybtexModel.Spec.Names
 open Lean
 namespace Pybtex.Drv.C04
@@ -7,7 +8,7 @@ namespace Pybtex.Drv.C04
 def personJ (p : Person) : Json :=
   obj [("first", strs p.first), ("middle", strs p.middle), ("prelast", strs p.prelast),
        ("last", strs p.last), ("lineage", strs p.lineage), ("bibtex_first", strs p.bibtexFirst),
-       ("str", strToJson p.toStr)]
+       ("str", strToJson (BibWrite.personStr p))]
 
 def errName : NameErr → String
   | .tooDeep => "BibTeXError"
